@@ -270,7 +270,9 @@ def e_parafac(g):
         kw["mask"] = m if g.flag() else m.astype(float)
     if g.flag(0.35):
         nd = len(shape)
-        kw["fixed_modes"] = g.choice([[0], [nd - 1], [0, nd - 1], list(range(nd)), [1]])
+        kw["fixed_modes"] = g.choice([[0], [nd - 1], [0, nd - 1], list(range(nd)), [1], (0,)])
+    if "mask" in kw:
+        g.opt(kw, "svd_mask_repeats", [1, 0, 2], 0.4)
     if g.callback is not None and g.flag(0.5):
         kw["callback"] = _cb(g)
     return dict(fn=D.parafac, kwargs=kw)
@@ -337,7 +339,7 @@ def e_nn_parafac_hals(g):
     if g.flag(0.3):
         kw["fixed_modes"] = g.choice([[0], [nd - 1], [0, 1]])
     if g.flag(0.3):
-        kw["nn_modes"] = g.choice([[0], [0, 1], [nd - 1]])
+        kw["nn_modes"] = g.choice([[0], [0, 1], [nd - 1], (0, 2), {0, 1}, "all"])
     return dict(fn=D.non_negative_parafac_hals, kwargs=kw)
 
 
@@ -413,6 +415,7 @@ def _constrained_opts(g, kw, shape, rank):
     _cp_common(g, kw, shape, rank)
     g.opt(kw, "n_iter_max_inner", [3, 1], 0.5)
     g.opt(kw, "tol_outer", [0, 1e-3], 0.2)
+    g.opt(kw, "tol_inner", [0, 1e-2], 0.2)
     g.opt(kw, "return_errors", [True], 0.3)
     g.opt(kw, "cvg_criterion", ["rec_error"], 0.15)
     if g.flag(0.3):
@@ -525,6 +528,9 @@ def e_partial_tucker(g):
     g.opt(kw, "tol", [0, 1e-2], 0.3)
     if g.flag(0.3):
         kw["mask"] = g.arr(shape, nonneg=True) > 0.3
+        g.opt(kw, "svd_mask_repeats", [1, 0, 2], 0.4)
+    if g.flag(0.2):
+        kw["modes"] = tuple(kw["modes"])
     kw["random_state"] = g.seed()
     return dict(fn=D.partial_tucker, kwargs=kw)
 
@@ -564,6 +570,7 @@ def e_nn_tucker_hals(g):
     g.opt(kw, "return_errors", [True], 0.3)
     g.opt(kw, "normalize_factors", [True], 0.3)
     g.opt(kw, "algorithm", ["active_set"], 0.3)
+    g.opt(kw, "tol", [0, 1e-3], 0.3)
     if g.flag(0.3):
         kw["sparsity_coefficients"] = g.choice([[0.1, 0.1, 0.1], [None, 0.2, None]])
     g.opt(kw, "core_sparsity_coefficient", [0.1], 0.2)
@@ -650,6 +657,7 @@ def e_rand_parafac(g):
     svd_opt(g, kw, 0.3)
     g.opt(kw, "return_errors", [True], 0.3)
     g.opt(kw, "max_stagnation", [1, 0], 0.3)
+    g.opt(kw, "tol", [0, 1e-2], 0.3)
     if g.callback is not None and g.flag(0.5):
         kw["callback"] = _cb(g)
     kw["random_state"] = g.seed()
@@ -773,6 +781,10 @@ def e_rpca(g):
         kw["mask"] = m if g.flag() else m.astype(float)
     g.opt(kw, "return_errors", [True], 0.3)
     g.opt(kw, "reg_E", [0.5], 0.3)
+    g.opt(kw, "reg_J", [0.5], 0.2)
+    g.opt(kw, "mu_init", [1e-2], 0.2)
+    g.opt(kw, "mu_max", [10.0], 0.2)
+    g.opt(kw, "learning_rate", [1.5], 0.2)
     g.opt(kw, "tol", [0], 0.2)
     return dict(fn=D.robust_pca, kwargs=kw)
 
@@ -882,6 +894,7 @@ def e_hals(g):
     g.opt(kw, "ridge_coefficient", [0.1], 0.3)
     g.opt(kw, "nonzero_rows", [True], 0.3)
     g.opt(kw, "tol", [0], 0.2)
+    g.opt(kw, "epsilon", [1e-3], 0.2)
     if g.callback is not None and g.flag(0.5):
         kw["callback"] = _cb(g)
     return dict(fn=hals_nnls, kwargs=kw, exempt=exempt)
@@ -899,6 +912,8 @@ def e_fista(g):
     g.opt(kw, "sparsity_coef", [0.1], 0.3)
     g.opt(kw, "ridge_coef", [0.1], 0.3)
     g.opt(kw, "lr", [0.05], 0.2)
+    g.opt(kw, "tol", [0, 1e-2], 0.3)
+    g.opt(kw, "epsilon", [1e-3], 0.2)
     return dict(fn=fista, kwargs=kw)
 
 
@@ -912,6 +927,7 @@ def e_asnnls(g):
     kw = dict(Utm=vec, UtU=UtU, n_iter_max=g.choice([10, 1, 50]))
     if g.flag(0.5):
         kw["x"] = g.arr(kw["Utm"].shape, nonneg=True, rs=rs)
+    g.opt(kw, "tol", [0, 1e-2], 0.3)
     return dict(fn=active_set_nnls, kwargs=kw)
 
 
@@ -932,6 +948,7 @@ def e_admm(g):
         kw[name] = [v] if g.flag() else {0: v}
         if g.flag(0.2):
             kw["n_const"] = 2  # the one-element list is then shorter than n_const
+    g.opt(kw, "tol", [0, 1e-1], 0.3)
     return dict(fn=admm, kwargs=kw)
 
 
@@ -1048,9 +1065,12 @@ def e_multi_mode_dot(g):
     kw = dict(tensor=g.arr(shape, rs=rs), matrix_or_vec_list=mats if form == "list" else tuple(mats))
     g.opt(kw, "skip", [0, 1], 0.3)
     if g.flag(0.3):
-        kw["modes"] = [0, 2]
+        kw["modes"] = [0, 2] if g.flag() else (0, 2)
         kw["matrix_or_vec_list"] = [mats[0], mats[2]]
         kw.pop("skip", None)
+    if g.flag(0.2):
+        kw["transpose"] = True
+        kw["matrix_or_vec_list"] = type(kw["matrix_or_vec_list"])(np.ascontiguousarray(m.T) for m in kw["matrix_or_vec_list"])
     return dict(fn=T.multi_mode_dot, kwargs=kw)
 
 
@@ -1066,6 +1086,9 @@ def e_kron_kr(g, which):
     g.opt(kw, "skip_matrix", [0, 1], 0.3)
     if which == "khatri_rao":
         g.opt(kw, "weights", [np.array([1.0, 2.0])], 0.3)
+        if g.flag(0.25) and "skip_matrix" not in kw:
+            nrows = int(np.prod([m.shape[0] for m in mats]))
+            kw["mask"] = (g.arr((nrows, 1), rs=rs, nonneg=True, kinds=("c",)) > 0.3).astype(float)
     else:
         g.opt(kw, "reverse", [True], 0.3)
     return dict(fn=getattr(T, which), kwargs=kw)
@@ -1193,6 +1216,10 @@ def e_cpfun(g, which):
     if which == "cp_flip_sign":
         kw = dict(cp_tensor=cp)
         g.opt(kw, "mode", [1, 2], 0.4)
+        if g.flag(0.2):
+            import tensorly as tl
+
+            kw["func"] = tl.sum
         return dict(fn=C.cp_flip_sign, kwargs=kw)
     if which == "cp_to_tensor":
         kw = dict(cp_tensor=cp)
@@ -1251,9 +1278,13 @@ def e_tuckerfun(g, which):
         g.opt(kw, "skip_factor", [0, 1], 0.3)
         return dict(fn=K.tucker_to_tensor, kwargs=kw)
     if which == "tucker_to_unfolded":
-        return dict(fn=K.tucker_to_unfolded, kwargs=dict(tucker_tensor=tk, mode=g.int(0, 2)))
+        kw = dict(tucker_tensor=tk, mode=g.int(0, 2))
+        g.opt(kw, "skip_factor", [0, 1], 0.3)
+        return dict(fn=K.tucker_to_unfolded, kwargs=kw)
     if which == "tucker_to_vec":
-        return dict(fn=K.tucker_to_vec, kwargs=dict(tucker_tensor=tk))
+        kw = dict(tucker_tensor=tk)
+        g.opt(kw, "skip_factor", [0, 2], 0.3)
+        return dict(fn=K.tucker_to_vec, kwargs=kw)
     if which == "tucker_normalize":
         return dict(fn=K.tucker_normalize, kwargs=dict(tucker_tensor=tk))
     mode = g.int(0, 2)
@@ -1327,6 +1358,8 @@ def e_p2fun(g, which):
         g.opt(kw, "parafac2_tensor_ok", [True], 0.3)
         return dict(fn=P2.Parafac2Tensor.from_CPTensor, kwargs=kw)
     kw = dict(parafac2_tensor=p2)
+    if which in ("parafac2_to_slice", "parafac2_to_slices"):
+        g.opt(kw, "validate", [False], 0.3)
     if which == "parafac2_to_slice":
         kw["slice_idx"] = g.int(0, 2)
     if which == "parafac2_to_unfolded":
@@ -1360,7 +1393,10 @@ def e_metrics(g, which):
         return dict(fn=congruence_coefficient, kwargs=kw)
     if which == "correlation_index":
         kw = dict(factors_1=[g.arr((4, 2), rs=rs), g.arr((3, 2), rs=rs)], factors_2=[g.arr((4, 2), rs=rs), g.arr((3, 2), rs=rs)])
+        if g.flag(0.3):
+            kw["factors_1"], kw["factors_2"] = tuple(kw["factors_1"]), tuple(kw["factors_2"])
         g.opt(kw, "method", ["min_score", "max_score"], 0.4)
+        g.opt(kw, "tol", [1e-8], 0.2)
         return dict(fn=correlation_index, kwargs=kw)
     if which in ("MSE", "RMSE", "correlation", "covariance"):
         kw = dict(y_true=g.arr((5, 3), rs=rs), y_pred=g.arr((5, 3), rs=rs))
